@@ -847,3 +847,97 @@ func selfSignedCert(t *testing.T) (tls.Certificate, *x509.CertPool) {
 	pool.AddCert(leaf)
 	return tls.Certificate{Certificate: [][]byte{der}, PrivateKey: key, Leaf: leaf}, pool
 }
+
+// TestC10TLSDialCancellation (real loopback, real clock): the peer accepts the TCP connection and
+// then never speaks - the TLS handshake that Dial runs for Options.TLS stalls. A cancellation or a
+// deadline in that window ends Dial with the context's error and closes the connection (the peer
+// sees the end of the stream). Bounds are generous (20 s for a 150 ms cancellation): only a Dial
+// that ignores its context is caught.
+func TestC10TLSDialCancellation(t *testing.T) {
+	st := stats.G()
+	_, roots := selfSignedCert(t)
+	ln, err := net.Listen("tcp", "127.0.0.1:0")
+	if err != nil {
+		t.Skipf("no loopback listener: %v", err)
+	}
+	defer ln.Close()
+	type peer struct {
+		closedAt chan time.Time
+	}
+	peers := make(chan *peer, 64)
+	go func() {
+		for {
+			c, err := ln.Accept()
+			if err != nil {
+				return
+			}
+			p := &peer{closedAt: make(chan time.Time, 1)}
+			peers <- p
+			go func() {
+				defer c.Close()
+				buf := make([]byte, 4096)
+				for {
+					_ = c.SetReadDeadline(time.Now().Add(60 * time.Second))
+					if _, err := c.Read(buf); err != nil {
+						p.closedAt <- time.Now()
+						return
+					}
+				}
+			}()
+		}
+	}()
+	for i, kind := range []string{"cancel", "deadline", "cancel", "deadline", "handshake-timeout"} {
+		ctx, cancel := context.WithCancel(context.Background())
+		opt := ch.Options{Address: ln.Addr().String(), TLS: &tls.Config{RootCAs: roots, ServerName: "localhost"}, Logger: zap.NewNop(), DialTimeout: 30 * time.Second}
+		var want error = context.Canceled
+		switch kind {
+		case "cancel":
+			go func() { time.Sleep(150 * time.Millisecond); cancel() }()
+		case "deadline":
+			var c2 context.CancelFunc
+			ctx, c2 = context.WithTimeout(ctx, 150*time.Millisecond)
+			defer c2()
+			want = context.DeadlineExceeded
+		case "handshake-timeout":
+			// no caller deadline at all: the library's own handshake timeout bounds the stalled connection
+			opt.HandshakeTimeout = 300 * time.Millisecond
+			opt.DialTimeout = 300 * time.Millisecond
+			want = nil
+		}
+		start := time.Now()
+		type res struct {
+			c   *ch.Client
+			err error
+		}
+		done := make(chan res, 1)
+		go func() { c, err := ch.Dial(ctx, opt); done <- res{c, err} }()
+		var r res
+		select {
+		case r = <-done:
+		case <-time.After(20 * time.Second):
+			cancel()
+			p := st.Violate("tls-dial-ignores-context", fmt.Sprintf("case %d (%s): Dial over TLS to a peer that never answers did not return within 20 s", i, kind), []byte(kind))
+			t.Fatalf("case %d (%s): Dial over TLS to a silent peer did not return within 20 s although its context ended after 150 ms (replay %s)", i, kind, p)
+		}
+		cancel()
+		if r.err == nil || r.c != nil {
+			t.Fatalf("case %d (%s): Dial to a peer that never completes the TLS handshake returned client=%v err=%v", i, kind, r.c != nil, r.err)
+		}
+		if want != nil && !errors.Is(r.err, want) {
+			t.Fatalf("case %d (%s): Dial error %q does not match %v", i, kind, r.err, want)
+		}
+		select {
+		case p := <-peers:
+			select {
+			case <-p.closedAt:
+			case <-time.After(20 * time.Second):
+				t.Fatalf("case %d (%s): Dial returned %v after %v, but the connection it opened is still open 20 s later", i, kind, r.err, time.Since(start))
+			}
+		case <-time.After(20 * time.Second):
+			t.Fatalf("case %d (%s): the listener never saw the connection", i, kind)
+		}
+		st.Case(stats.Hash("c10tls", kind, i), true, func() any {
+			return map[string]any{"kind": "tls-dial-cancellation", "how": kind, "returned_after": time.Since(start).String(), "error": fmt.Sprint(r.err)}
+		})
+	}
+}
